@@ -359,7 +359,9 @@ def oracle(case):
     method = rng.choice(["GET", "POST", "PUT", "DELETE", "HEAD", "PATCH", "OPTIONS"])
     path, query, uri = rng.choice([("/p", "", "/p"), ("/p/x", "a=1&b=2", "/p/x?a=1&b=2"), ("/", "", "/"),
                                    ("/p/é x", "q=a%20b%26c", "/p/%C3%A9%20x?q=a%20b%26c"), ("/p/a+b", "x=%41", "/p/a+b?x=%41"),
-                                   ("/deep/er/path", "", "/deep/er/path")])
+                                   ("/deep/er/path", "", "/deep/er/path"),
+                                   # the decoded path itself holds a percent sign followed by two hex digits
+                                   ("/p/disc%50", "", "/p/disc%2550"), ("/p/100%25", "k=%2541", "/p/100%2525?k=%2541")])
     t0 = rng.randrange(10 ** 9, 2 * 10 ** 9) + rng.random()
     app = get_app(alg, qop, users, realm, requser, secret, timeout)
     nonce = issue_nonce(secret, agent, timeout, int(t0 * 1e6))
